@@ -117,7 +117,8 @@ func genSimpleRequest(r *Rng, routes []genRoute) *Req {
 
 // ---- domain "allow" (C17): raw case = (table request) ----
 // obs = (probes options)   probes: ((method status allow-set) ...) one per method of the universe,
-//                          options: (status allow-list acam-list invoked-count)
+//
+//	options: (status allow-list acam-list invoked-count)
 func genAllow(r *Rng) Sx {
 	router := 0
 	if r.Pct(45) {
